@@ -12,7 +12,8 @@ NO_MINIMISE = True
 RULE = ("controller-level network runs of 4 and 7 real operators (real controllers, instances, BLS keys, compaction where "
         "the runner compacts) with 0..f Byzantine operators that forge correctly signed equivocating proposals, prepares, "
         "commits, prepared and unprepared round changes with justifications taken from the air, decided-shaped aggregates, "
-        "field mutations; adversarial scheduler (out-of-order delivery, drops, replays, timeouts, selective delivery). The "
+        "field mutations; scripted attacks played to the end (equivocating leader with full Byzantine support, fabricated "
+        "round-change justification after a lone decision, early proposal by the previous leader); adversarial scheduler (out-of-order delivery, drops, replays, timeouts, selective delivery). The "
         "monitor compares the decisions reported by all correct operators of a run (and by one operator over time). Plus the "
         "scripted history of finding F6. One case = the input history of one operator; the agreement verdict of a run is "
         "attached to its first operator's case. Non-trivial = history reaches round >= 2 or contains a reported decision; "
@@ -53,11 +54,12 @@ def runs(tier, seed):
     r += [("ctrl4b1-%d" % i, ["net", "-level", "ctrl", "-byz", "1", "-seed", str(seed * 100 + i), "-n", str(14 * k), "-size", "4"]) for i in range(8)]
     r += [("ctrl4-%d" % i, ["net", "-level", "ctrl", "-seed", str(seed * 100 + 20 + i), "-n", str(10 * k), "-size", "4"]) for i in range(3)]
     r += [("ctrl7-%d" % i, ["net", "-level", "ctrl", "-byz", "2", "-seed", str(seed * 100 + 40 + i), "-n", str(3 * k), "-size", "7"]) for i in range(4)]
+    r += [("attack-%d" % i, ["attack", "-seed", str(seed * 100 + 60 + i), "-n", str(16 * k)]) for i in range(3)]
     return r
 
 
 def search_runs(tier, seed):
-    return [("s%d" % i, ["net", "-level", "ctrl", "-byz", "1", "-seed", str(seed * 971 + i), "-n", "60", "-size", "4"]) for i in range(8)]
+    return [("sa%d" % i, ["attack", "-seed", str(seed * 977 + i), "-n", "80"]) for i in range(4)] + [("s%d" % i, ["net", "-level", "ctrl", "-byz", "1", "-seed", str(seed * 971 + i), "-n", "60", "-size", "4"]) for i in range(8)]
 
 
 def nontrivial(case):
